@@ -142,7 +142,7 @@ func (f *Flow) violation() (kind string, b []byte) {
 		code := []byte{0x03, 0x7f, 0x81, 0xff, 0x40}[t.Draw("hcode", 5)]
 		// for a pending subscribe when there is one, else any identifier of the space
 		id := uint16(0x6000)
-		for _, r := range f.Reqs {
+		for _, r := range f.ActiveReqs {
 			if r.Ret == 0 && r.WireStep != 0 && r.ID&0xe000 == 0x6000 {
 				id = r.ID
 			}
